@@ -375,8 +375,6 @@ def gen():
         # ---------------- encode
         w("@fn %s::encode" % ipath)
         w("@props C01 C02 C09 C10 C11 C14")
-        if name == "ConnackProperties":
-            w("@trusted NOT PROVED: with 16 optional properties the single Verus query for this function exceeds the usable solver resource cap (the 16 conditional writes through `&mut W` make the query grow exponentially; measured 10 s at 4 steps, 160 s at 8, > cap at 12); the contract is assumed. Its encode_len, its decoder and the 13 other (same macro-generated shape) encoders are proved.")
         w("@attr #[verifier::rlimit(1200)]")
         w("@attr #[verifier::spinoff_prover]")
         w("@entry")
@@ -427,7 +425,31 @@ def gen():
         len_steps("write_var_int ( writer ,", "")
         w("@after `write_var_int ( writer ,`")
         w("  let ghost w1 = writer.written();")
+        outlined = len(props) > 10
+        if outlined:
+            # R30: with more than 10 conditional writes through `&mut W` the single query grows exponentially (see DESIGN 9.4);
+            # each `if let Some(value) = self.f { write id; write value }` statement is moved, tokens unchanged, into a helper
+            for k, q in enumerate(props, 1):
+                pid, ty, f = PROPS[q]
+                occ, pat = write_anchor(q)
+                assert pat.endswith(" {")
+                w("@outline %d `%s` => `self . wstep_%d ( writer ) ? ;`" % (occ, pat[:-2], k))
+                w("  fn wstep_%d<W: IoWrite>(&self, writer: &mut W) -> (r: io::Result<()>)" % k)
+                if ty in OKFN:
+                    w("      requires %s(self.%s)," % (OKFN[ty], f))
+                w("      ensures")
+                w("  #wr-%d: r is Ok ==> final(writer).written() == put_%s(old(writer).written(), 0x%02Xu8, self.%s)" % (k, ty, pid, f))
+                w("  #wr-%d-err: r is Err ==> old(writer).can_fail()" % k)
+                w("  #wr-%d-frame: final(writer).can_fail() == old(writer).can_fail()" % k)
+                w("  tail: Ok(())")
+            for k, q in enumerate(props):
+                w("@before `self . wstep_%d ( writer )`" % (k + 1))
+                if k >= 1:
+                    w("  proof { lemma_%s_wstep_%d(w1, *self, wp%d, writer.written()); }" % (name, k, k - 1))
+                w("  let ghost wp%d = writer.written();" % k)
         for k, q in enumerate(props):
+            if outlined:
+                break
             occ, pat = write_anchor(q)
             w("@before %d `%s`" % (occ, pat))
             if k >= 1:
@@ -443,7 +465,8 @@ def gen():
         if props:
             K = len(props)
             pid, ty, f = PROPS[props[K - 1]]
-            w("      #wr-%d: assert(writer.written() == put_%s(wp%d, 0x%02Xu8, self.%s)) by { reveal(put_%s); }" % (K, ty, K - 1, pid, f, ty))
+            if not outlined:
+                w("      #wr-%d: assert(writer.written() == put_%s(wp%d, 0x%02Xu8, self.%s)) by { reveal(put_%s); }" % (K, ty, K - 1, pid, f, ty))
             w("      lemma_%s_wstep_%d(w1, *self, wp%d, writer.written());" % (name, K, K - 1))
             w("      assert(writer.can_fail() == old(writer).can_fail());")
         w("      assert(ups.take(0) =~= Seq::<UserProperty>::empty());")
